@@ -1,6 +1,7 @@
 package props
 
 import (
+	"sort"
 	"fmt"
 	"go/types"
 	"strings"
@@ -323,6 +324,105 @@ func C17(p *ir.Program, r *report.R) {
 		}
 		c.MustFind("K5", "compose/"+name, fn, n, "Accum += ... store")
 	}
+	// ---- no raw arithmetic on priorities or powers ---------------------------------------------------------
+	// Outside the saturating helpers no int64 sum, difference or product is computed from Accum or
+	// VotingPower (e.g. comparing by the sign of a.Accum - b.Accum wraps for extreme powers).
+	{
+		nOps := 0
+		var bad []string
+		for _, f := range p.Funcs {
+			if f.Pkg == nil || f.Blocks == nil || strings.HasSuffix(p.Pos(f.Pos()), "_test.go") {
+				continue
+			}
+			rel := ir.RelPkg(f.Pkg.Pkg)
+			if rel != "types" && rel != "consensus" {
+				continue
+			}
+			switch f.Name() {
+			case "safeAddClip", "safeSubClip", "safeMulClip", "safeAdd", "safeSub", "safeMul":
+				continue
+			}
+			ir.Instrs(f, func(in ssa.Instruction) {
+				bo, ok := in.(*ssa.BinOp)
+				if !ok {
+					return
+				}
+				switch bo.Op.String() {
+				case "+", "-", "*":
+				default:
+					return
+				}
+				if b, ok := bo.Type().Underlying().(*types.Basic); !ok || b.Kind() != types.Int64 {
+					return
+				}
+				x, y := ir.Render(bo.X), ir.Render(bo.Y)
+				// priorities: any raw +,-,*; powers: products only (tallies of distinct validators' powers are
+				// bounded by the total, which is accumulated with the saturating helper)
+				accum := strings.HasSuffix(x, ".Accum") || strings.HasSuffix(y, ".Accum")
+				powerProduct := bo.Op.String() == "*" && (strings.HasSuffix(x, ".VotingPower") || strings.HasSuffix(y, ".VotingPower"))
+				if !accum && !powerProduct {
+					return
+				}
+				nOps++
+				bad = append(bad, ir.FuncName(f)+": "+ir.Render(bo)+" at "+p.InstrPos(in))
+			})
+		}
+		sort.Strings(bad)
+		r.Check("K11", "saturating/no-raw-arithmetic-on-accum-or-power", "-", len(bad) == 0, fmt.Sprintf("raw int64 +,-,* with an Accum operand, or product with a VotingPower operand, outside the saturating helpers: %v", bad))
+	}
+	// ---- fault-validator evidence is judged against the commit inside the block -------------------------
+	// Both checkers (consensus pre-vote check and validateBlock) take the LastCommit of the block being
+	// checked, never a locally reconstructed commit (whose round depends on what this node saw).
+	{
+		cbe := p.Func("consensus", "ConsensusState.checkBlockEvidence")
+		for _, call := range ir.Calls(cbe, "consensus.ConsensusState.checkFaultValEvidence") {
+			r.Check("K5", csT+"checkBlockEvidence/commit-of-the-block", p.InstrPos(call.(ssa.Instruction)), Arg(call, 2) == "block.LastCommit", "checkFaultValEvidence receives block.LastCommit: "+Arg(call, 2))
+		}
+		vb := p.Func("consensus", "validateBlock")
+		for _, call := range ir.Calls(vb, "consensus.VerifyFaultValEvidence") {
+			r.Check("K5", "consensus.validateBlock/fault-evidence/commit-of-the-block", p.InstrPos(call.(ssa.Instruction)), Arg(call, 1) == "block.LastCommit", "VerifyFaultValEvidence receives block.LastCommit: "+Arg(call, 1))
+		}
+	}
+
+	// ---- a node never acts in a round it has not entered (and rotated for) ---------------------------------
+	// addVote may learn of a later round through +2/3 votes; before it prevotes/precommits/commits in
+	// vote.Round it enters that round, which is where cs.Validators is rotated by (round - cs.Round).
+	// Skipping the entry leaves the proposer schedule of this node behind everyone else's.
+	{
+		av := p.Func("consensus", "ConsensusState.addVote")
+		nS := 0
+		isEnter := func(in ssa.Instruction) bool {
+			call, ok := in.(*ssa.Call)
+			return ok && ir.CalleeName(call) == "consensus.ConsensusState.enterNewRound" && Arg(call, 2) == "vote.Round"
+		}
+		ir.Instrs(av, func(in ssa.Instruction) {
+			call, ok := in.(*ssa.Call)
+			if !ok {
+				return
+			}
+			n := ir.CalleeName(call)
+			if !(n == "consensus.ConsensusState.enterPrevote" || n == "consensus.ConsensusState.enterPrevoteWait" || n == "consensus.ConsensusState.enterPrecommit" || n == "consensus.ConsensusState.enterPrecommitWait" || n == "consensus.ConsensusState.enterCommit") {
+				return
+			}
+			if Arg(call, 2) != "vote.Round" {
+				return
+			}
+			nS++
+			found, _, tr := ir.FindPath(ir.PathQuery{From: ir.Entry(av), Target: func(x ssa.Instruction) bool { return x == in }, Avoid: isEnter,
+				AvoidEdge: func(atoms []string) bool {
+					for _, a := range atoms {
+						if a == "eq(cs.RoundState.Round,vote.Round)" || a == "eq(vote.Round,cs.RoundState.Round)" {
+							return true
+						}
+					}
+					return false
+				}})
+			r.Check("K2", csT+"addVote/round-entered-before-step/"+strings.TrimPrefix(n, "consensus.ConsensusState."), p.InstrPos(in), !found,
+				fmt.Sprintf("a step of vote.Round is taken only after enterNewRound(height, vote.Round) (or when vote.Round is the current round); path without it: %v", tr))
+		})
+		r.Check("K2", csT+"addVote/round-entered-before-step/sites", p.Pos(av.Pos()), nS >= 4, fmt.Sprintf("%d step calls for vote.Round found in addVote", nS))
+	}
+
 	// ---- a copy carries the designated proposer ----------------------------------------------------
 	// GetProposer() of a copy must be the validator IncrementAccum designated, not a recomputation
 	// from the (already decremented) accumulators: Copy assigns every field of ValidatorSet.
